@@ -43,7 +43,7 @@ def mkarr(env, name, shape, **kw):
     return a
 
 
-def run_prologue(env, rc, d2pi, rbt, extrap, with_pressure=True, psi_sol=None, arrays=None, decreasing=False, psi_sol_inner=None):
+def run_prologue(env, rc, d2pi, rbt, extrap, with_pressure=True, psi_sol=None, arrays=None, decreasing=False, psi_sol_inner=None, gfile=True):
     fn, info = prologue()
     if arrays is None:
         psi2D = mkarr(env, "psi2D", (2, 2))
@@ -60,7 +60,7 @@ def run_prologue(env, rc, d2pi, rbt, extrap, with_pressure=True, psi_sol=None, a
     given = {"psi2D": psi2D, "psi1D": psi1D, "fpol1D": fpol1D, "pressure": pressure}
     me = types.SimpleNamespace(user_options=types.SimpleNamespace(reverse_current=rc, psi_divide_twopi=d2pi, reverse_Bt=rbt, extrapolate_profiles=extrap,
                                                                  psi_sol=psi_sol, psi_sol_inner=psi_sol if psi_sol_inner is None else psi_sol_inner))
-    pa, pb = env.real("psi_axis_gfile"), env.real("psi_bdry_gfile")
+    pa, pb = (env.real("psi_axis_gfile"), env.real("psi_bdry_gfile")) if gfile else (None, None)   # None: built from arrays, not from a geqdsk file
     import warnings
     with warnings.catch_warnings():
         warnings.simplefilter("ignore")
@@ -168,7 +168,7 @@ def ob_provenance(env):
     f0 = ast.parse(src).body[0]
     body = [n for n in f0.body if isinstance(n, ast.With)][0].body
     i0 = next(i for i, n in enumerate(body) if isinstance(n, ast.Assign) and ast.unparse(n.targets[0]) == "options_dict")
-    i1 = next(i for i, n in enumerate(body) if isinstance(n, ast.If) and "geqdsk_input" in ast.unparse(n.test))
+    i1 = next(i for i, n in enumerate(body) if isinstance(n, ast.If) and "hypnotoad_input_geqdsk_file_contents" in ast.unparse(n))
     f2 = ast.FunctionDef(name="provenance", args=ast.arguments(posonlyargs=[], args=[ast.arg("self"), ast.arg("f")], kwonlyargs=[], kw_defaults=[], defaults=[]),
                          body=body[i0:i1 + 1], decorator_list=[], returns=None, type_comment=None, type_params=[])
     m = ast.Module(body=[f2], type_ignores=[])
@@ -182,8 +182,15 @@ def ob_provenance(env):
     text = "  EFIT  synthetic geqdsk text\n 1.000000000E+00-2.500000000E-01\n"
     written, attrs = {}, {}
     fobj = types.SimpleNamespace(write=lambda k, v: written.__setitem__(k, v), write_file_attribute=lambda k, v: attrs.__setitem__(k, v))
-    me = types.SimpleNamespace(user_options=mesh_opts, version="v", git_hash=None, git_diff=None,
-                               equilibrium=types.SimpleNamespace(user_options=eq_opts, nonorthogonal_options=no_opts, geqdsk_filename="file.g", geqdsk_input=text))
+    # the equilibrium may have been read from a named file, from an unnamed text stream (text but no file name), or built from arrays (neither)
+    origin = env.choose(3)
+    env.tag(("named_file", "unnamed_stream", "from_arrays")[origin])
+    eq = types.SimpleNamespace(user_options=eq_opts, nonorthogonal_options=no_opts)
+    if origin == 0:
+        eq.geqdsk_filename = "file.g"
+    if origin in (0, 1):
+        eq.geqdsk_input = text
+    me = types.SimpleNamespace(user_options=mesh_opts, version="v", git_hash=None, git_diff=None, equilibrium=eq)
     ns["provenance"](me, fobj)
     env.witness("written")
     y = written.get("hypnotoad_inputs_yaml")
@@ -193,8 +200,11 @@ def ob_provenance(env):
         for k, v in opts.items():
             env.claim("embedded_yaml_has_every_%s_option_with_its_value" % name, k in loaded and loaded[k] == v)
     env.claim("embedded_yaml_has_nothing_else", set(loaded) == set(eq_opts) | set(no_opts) | set(mesh_opts))
-    env.claim("embedded_geqdsk_text_is_the_stored_string_unchanged", written.get("hypnotoad_input_geqdsk_file_contents") is text)
-    env.claim("geqdsk_filename_recorded", attrs.get("hypnotoad_geqdsk_filename") == "file.g")
+    if origin in (0, 1):
+        env.claim("embedded_geqdsk_text_is_the_stored_string_unchanged", written.get("hypnotoad_input_geqdsk_file_contents") is text)
+    else:
+        env.claim("no_geqdsk_text_invented", "hypnotoad_input_geqdsk_file_contents" not in written)
+    env.claim("geqdsk_filename_recorded_iff_known", attrs.get("hypnotoad_geqdsk_filename") == ("file.g" if origin == 0 else None))
 
 
 def _mk(rc, d2pi, rbt, extrap):
